@@ -206,6 +206,9 @@ def run_parent(prop, tier, seed, nshards, clause_filter, scale):
             for k2, v in c["excluded_known"].items():
                 m["excluded_known"][k2] = m["excluded_known"].get(k2, 0) + v
             m["failures"] += c["failures"]
+            if c.get("n_timeouts"):
+                harness_errors.append("INCONCLUSIVE: clause %s shard %d: %d case(s) exceeded the per-case wall-clock guard, e.g. %s"
+                                      % (c["clause"], i, c["n_timeouts"], json.dumps(c.get("timeouts", [])[:1])[:400]))
             m["exhaustive"] = m["exhaustive"] and c["exhaustive"]
             m["wall_s"] = max(m["wall_s"], c["wall_s"])
 
